@@ -9,8 +9,10 @@ CONSTANTS
     InitKinds = {"try_init_slot", "init_slot", "slot_init", "try_init", "init", "try_init_internal", "init_internal", "internal_slot_init"}
     ObsOps = {"is_enabled", "emit", "span", "flush", "probe"}
     MaxObs = 3
+    HandleOps = {"h_probe", "h_flush", "h_guard_drop"}
+    MaxHandle = 3
     Design = "oncelock"
 INVARIANTS AtMostOneWinner ExactlyOneWinner LosersNeverReceive AllFiveTogether
-    EnabledMeansInstalled InertBefore Stable
+    EnabledMeansInstalled InertBefore Stable HandleIsInstalled
 POSTCONDITION TraceAccepted
 CHECK_DEADLOCK FALSE
